@@ -336,9 +336,13 @@ def biclosed_str(t):
     return "(" + " @ ".join(biclosed_str(t[i:i + 1]) for i in range(len(t))) + ")" if len(t) else "Ty()"
 
 
+CALL_LOG = []      # (name, args) of every call of a symbolic function, in order (cleared by the cases that read it)
+
+
 def symbolic_function(name, n_out):
     """Injective symbolic function: returns the n_out strings '<name><k>(<args>)'."""
     def f(*args):
+        CALL_LOG.append((name, tuple(map(str, args))))
         outs = tuple("%s%d(%s)" % (name, k, ",".join(map(str, args))) for k in range(n_out))
         return outs[0] if n_out == 1 else outs
     f.__name__ = name
